@@ -622,6 +622,15 @@ func (se *SessionExecutor) recycleContinueConn(pc backend.PooledConnect) {
 
 func (se *SessionExecutor) recycleBackendConns(pcs map[string]backend.PooledConnect, rollback bool) {
 	if se.isInTransaction() || se.IsKeepSession() {
+		// the session keeps its connections, except those that were closed (for example
+		// after an execution timeout): they are released and forgotten like recycleBackendConn does
+		for _, pc := range pcs {
+			if pc != nil && pc.IsClosed() {
+				se.recycleTx(pc)
+				se.forgetKsConn(pc)
+				pc.Recycle()
+			}
+		}
 		return
 	}
 
@@ -856,6 +865,10 @@ func (se *SessionExecutor) executeMultipleSQLInSlice(requestContext *util.Reques
 				if killErr := se.killSliceQueries(pooledConn, currentSliceName, sqlStatement); killErr != nil {
 					log.Warn("failed to kill query error: %v", killErr)
 				}
+				// 关闭连接，防止复用有问题: the statement may still be running (the kill can fail or be
+				// slow) and its reply is still owed on this connection, so it must not be reused
+				// (the unsharded path does the same)
+				pooledConn.Close()
 				return sliceResults, fmt.Errorf("slice: %s execution timed out, sql : %s", currentSliceName, sqlStatement)
 			case execResult := <-execResultChan:
 				// SQL 执行成功/失败，记录SQL
